@@ -292,7 +292,9 @@ void anneal_puso(  // updates states and values in place
     }
 
     long *index = (long*)malloc(num_terms * sizeof(long));
-    index[0] = 0;
+    if(num_terms > 0) {
+        index[0] = 0;  // nothing is allocated when there are no terms
+    }
     for(long term=0; term<num_terms; term++) {
         if(term) {
             index[term] = index[term-1] + num_couplings[term-1];
